@@ -1,3 +1,5 @@
+import os
+from .. import core
 from ..chanprop import ChanSpec
 from .c01 import C01
 
@@ -17,6 +19,25 @@ class C02(ChanSpec):
     rule = C01.rule + "; the lost-wake-up window (writer finishing between the sender's last len check and Store idle) is reached by DFS with 2 preemptions"
     assumptions = C01.assumptions + ("the executor eventually runs every submitted action",)
     modelled_not_verified = C01.modelled_not_verified
+
+    def harness(self, seed, count, tier):
+        lines = super().harness(seed, count, tier)
+        # the streaming entry point: reader-typed messages through the head handler on a queued channel; whatever was
+        # accepted must be on the wire once the sender has run (no chunk left behind without a wake-up)
+        rc, so, se = core.run([os.path.join(core.BIN, "nvh"), "-prop", "C14", "-seed", str(seed + 2), "-count", str(300 if tier == "quick" else 8000)], timeout=1800)
+        lines += [l for l in so.split("\n") if l.startswith("C14 head async") or l.startswith("#case")]
+        if rc != 0:
+            lines.append("C14 crash harness-exit-%d" % rc)
+        return lines
+
+    def nontrivial(self, line, answer):
+        t = line.split()
+        return t[1] == "end" or t[0] == "C14"
+
+    def extra_coverage(self, pairs):
+        cov = super().extra_coverage([(l, a) for l, a in pairs if not l.startswith("C14 ")])
+        cov["streamed_messages_compared"] = sum(1 for l, a in pairs if l.startswith("C14 "))
+        return cov
 
 
 SPEC = C02()
